@@ -538,6 +538,24 @@ func SetValue(dest, v reflect.Value) {
 	case reflect.Uint, reflect.Uint8, reflect.Uint16, reflect.Uint32, reflect.Uint64:
 		dest.SetUint(EnsureUint64(v.Interface()))
 		return
+	case reflect.Map:
+		// a map read without type information is converted to the destination's map type
+		if v.Kind() == reflect.Map && !v.Type().AssignableTo(dest.Type()) {
+			m := reflect.MakeMapWithSize(dest.Type(), v.Len())
+			for _, k := range v.MapKeys() {
+				setMapEntry(m, k.Interface(), v.MapIndex(k).Interface())
+			}
+			dest.Set(m)
+			return
+		}
+	case reflect.Slice:
+		// same for a list read without type information
+		if v.Kind() == reflect.Slice && !v.Type().AssignableTo(dest.Type()) {
+			if cv, err := ConvertSliceValueType(dest.Type(), v); err == nil && cv.IsValid() {
+				dest.Set(cv)
+			}
+			return
+		}
 	}
 
 	dest.Set(v)
